@@ -9,7 +9,8 @@ from .c_ignore import _skip_findall, _skip_search, g_skip
 def slice_prefix(fn):
     body = [s for s in fn.body if not (isinstance(s, ast.Expr) and isinstance(s.value, ast.Constant))]
     for k, st in enumerate(body):
-        if isinstance(st, ast.If) and ast.unparse(st.test) == "not core.is_valid_python(source)":
+        # the statement that hands an invalid text back (an `if` with the same test that only dedents the text is not it)
+        if isinstance(st, ast.If) and ast.unparse(st.test) == "not core.is_valid_python(source)" and st.body and isinstance(st.body[-1], ast.Return):
             return body[:k + 1], "early-returns"
     raise NotGenerated("format_code: `if not core.is_valid_python(source): return source` not found")
 
